@@ -25,6 +25,7 @@ HERE = os.path.dirname(os.path.abspath(__file__))
 REPO = "/repo"
 TARGET = os.path.join(HERE, ".target")
 BIN = os.path.join(TARGET, "release", "cooksim")
+SHADOW_BIN_PATH = os.path.join(TARGET, "release", "cooksim-shadow")
 TMP = os.path.join(TARGET, "tmp")
 REPLAYS = os.path.join(HERE, "replays")
 EVIDENCE = os.path.join(HERE, "evidence")
@@ -67,7 +68,40 @@ def die(msg, code=2):
     sys.exit(code)
 
 
+SIMCLOCK_SO = os.path.join(TARGET, "simclock", "libsimclock.so")
+
+
+def sim_env(env=None):
+    """Environment of a simulator process: the clock seam (/verif/simclock) is preloaded, so that
+    every clock read and sleep of the process goes through the simulator (pass-through until a
+    phase switches to simulated time). Compilers, cargo and Miri run without it."""
+    e = dict(env or ENV)
+    if os.path.exists(SIMCLOCK_SO):
+        e["LD_PRELOAD"] = SIMCLOCK_SO + ((":" + e["LD_PRELOAD"]) if e.get("LD_PRELOAD") else "")
+    return e
+
+
+def build_simclock():
+    src = os.path.join(HERE, "simclock", "simclock.c")
+    try:
+        if os.path.exists(SIMCLOCK_SO) and os.path.getmtime(SIMCLOCK_SO) >= os.path.getmtime(src):
+            return True
+        os.makedirs(os.path.dirname(SIMCLOCK_SO), exist_ok=True)
+        tmp = SIMCLOCK_SO + f".{os.getpid()}.tmp"
+        p = subprocess.run(["cc", "-shared", "-fPIC", "-O2", "-o", tmp, src, "-ldl"], stdout=subprocess.PIPE, stderr=subprocess.STDOUT, text=True, timeout=120)
+        if p.returncode != 0:
+            log(f"NOTE: the clock seam could not be built ({p.stdout.strip()[-300:]}); the simulator runs on the real clock (no clock faults)")
+            return False
+        os.replace(tmp, SIMCLOCK_SO)
+        return True
+    except Exception as e:  # noqa
+        log(f"NOTE: the clock seam could not be built ({e}); the simulator runs on the real clock (no clock faults)")
+        return False
+
+
 def run(cmd, cwd=None, timeout=None, env=None, capture=True):
+    if cmd and cmd[0] in (BIN, SHADOW_BIN_PATH):
+        env = sim_env(env)
     try:
         p = subprocess.run(cmd, cwd=cwd, env=env or ENV, timeout=timeout, stdout=subprocess.PIPE if capture else None,
                            stderr=subprocess.STDOUT if capture else None, text=True)
@@ -93,6 +127,7 @@ def build_cooksim():
     """Rebuild the simulator against /repo's current working tree (cargo's own
     freshness check; the path dependency makes any source edit trigger it)."""
     t0 = time.time()
+    build_simclock()
     rc, out = cargo_build("cooksim")
     if rc == 0:
         return time.time() - t0
@@ -117,24 +152,261 @@ def build_cooksim():
 
 SHADOW_DIR = os.path.join(TARGET, "shadow", "cooklang")
 SHADOW_BIN = os.path.join(TARGET, "release", "cooksim-shadow")
+assert SHADOW_BIN == SHADOW_BIN_PATH
 SHUTTLE_SYNC = {"Mutex", "MutexGuard", "RwLock", "RwLockReadGuard", "RwLockWriteGuard", "Condvar", "Once", "Barrier", "BarrierWaitResult"}
 
 # The shadow copy gets this module; every path into std::sync / core::sync is redirected to it, so
 # a primitive is caught however it is imported (use-tree, alias, glob, `use std::sync;` + `sync::Mutex`).
 # Explicit re-exports take precedence over the glob, so what shuttle models is shuttle's and the
 # rest (Arc, Weak, LazyLock, OnceLock, PoisonError, ...) stays std's.
-VERIF_SYNC_RS = """//! generated by /verif/check.py (shadow build only)
+VERIF_SYNC_RS = r"""//! generated by /verif/check.py (shadow build only)
+//!
+//! What shuttle models is shuttle's; `Mutex`, `RwLock`, `OnceLock` and `LazyLock` are thin wrappers
+//! that add ONE scheduling point right after a lock was acquired / right before a lazy value is
+//! built. shuttle's own primitives yield only *before* they acquire, so a critical section that
+//! contains no further synchronisation would be atomic under the simulated scheduler, while a real
+//! thread can be preempted anywhere inside it - in particular other threads can find the lock
+//! held (`try_lock` fails) or the lazy value missing (`get()` is `None`) for a while.
 #![allow(unused_imports, dead_code)]
 pub use std::sync::*;
 pub use shuttle::sync::{
-    Barrier, BarrierWaitResult, Condvar, Mutex, MutexGuard, Once, OnceState, RwLock, RwLockReadGuard,
-    RwLockWriteGuard, WaitTimeoutResult,
+    Barrier, BarrierWaitResult, Condvar, MutexGuard, Once, OnceState, RwLockReadGuard, RwLockWriteGuard, WaitTimeoutResult,
 };
 pub mod atomic {
     pub use shuttle::sync::atomic::*;
 }
 pub mod mpsc {
     pub use shuttle::sync::mpsc::*;
+}
+
+/// the holder of a lock is preempted right after it got it
+#[inline]
+fn preempt() {
+    if !std::thread::panicking() {
+        shuttle::thread::sleep(std::time::Duration::ZERO);
+    }
+}
+
+pub struct Mutex<T: ?Sized> {
+    inner: shuttle::sync::Mutex<T>,
+}
+
+impl<T> Mutex<T> {
+    pub const fn new(value: T) -> Self {
+        Self { inner: shuttle::sync::Mutex::new(value) }
+    }
+    pub fn into_inner(self) -> LockResult<T> {
+        self.inner.into_inner()
+    }
+}
+
+impl<T: ?Sized> Mutex<T> {
+    pub fn lock(&self) -> LockResult<MutexGuard<'_, T>> {
+        let r = self.inner.lock();
+        preempt();
+        r
+    }
+    pub fn try_lock(&self) -> TryLockResult<MutexGuard<'_, T>> {
+        let r = self.inner.try_lock();
+        if !matches!(r, Err(TryLockError::WouldBlock)) {
+            preempt();
+        }
+        r
+    }
+    pub fn get_mut(&mut self) -> LockResult<&mut T> {
+        self.inner.get_mut()
+    }
+    /// (shuttle's model has no `is_poisoned`: approximated by an attempt to lock; a lock that is
+    /// held at the moment answers `false`)
+    pub fn is_poisoned(&self) -> bool {
+        matches!(self.inner.try_lock(), Err(TryLockError::Poisoned(_)))
+    }
+    pub fn clear_poison(&self) {
+        self.inner.clear_poison()
+    }
+}
+
+impl<T: Default> Default for Mutex<T> {
+    fn default() -> Self {
+        Self::new(T::default())
+    }
+}
+impl<T> From<T> for Mutex<T> {
+    fn from(t: T) -> Self {
+        Self::new(t)
+    }
+}
+impl<T: ?Sized + std::fmt::Debug> std::fmt::Debug for Mutex<T> {
+    fn fmt(&self, f: &mut std::fmt::Formatter<'_>) -> std::fmt::Result {
+        std::fmt::Debug::fmt(&self.inner, f)
+    }
+}
+
+pub struct RwLock<T: ?Sized> {
+    inner: shuttle::sync::RwLock<T>,
+}
+
+impl<T> RwLock<T> {
+    pub const fn new(value: T) -> Self {
+        Self { inner: shuttle::sync::RwLock::new(value) }
+    }
+    pub fn into_inner(self) -> LockResult<T> {
+        self.inner.into_inner()
+    }
+}
+
+impl<T: ?Sized> RwLock<T> {
+    pub fn read(&self) -> LockResult<RwLockReadGuard<'_, T>> {
+        let r = self.inner.read();
+        preempt();
+        r
+    }
+    pub fn write(&self) -> LockResult<RwLockWriteGuard<'_, T>> {
+        let r = self.inner.write();
+        preempt();
+        r
+    }
+    pub fn try_read(&self) -> TryLockResult<RwLockReadGuard<'_, T>> {
+        let r = self.inner.try_read();
+        if !matches!(r, Err(TryLockError::WouldBlock)) {
+            preempt();
+        }
+        r
+    }
+    pub fn try_write(&self) -> TryLockResult<RwLockWriteGuard<'_, T>> {
+        let r = self.inner.try_write();
+        if !matches!(r, Err(TryLockError::WouldBlock)) {
+            preempt();
+        }
+        r
+    }
+    pub fn get_mut(&mut self) -> LockResult<&mut T> {
+        self.inner.get_mut()
+    }
+    pub fn is_poisoned(&self) -> bool {
+        matches!(self.inner.try_read(), Err(TryLockError::Poisoned(_)))
+    }
+    pub fn clear_poison(&self) {
+        self.inner.clear_poison()
+    }
+}
+
+impl<T: Default> Default for RwLock<T> {
+    fn default() -> Self {
+        Self::new(T::default())
+    }
+}
+impl<T> From<T> for RwLock<T> {
+    fn from(t: T) -> Self {
+        Self::new(t)
+    }
+}
+impl<T: ?Sized + std::fmt::Debug> std::fmt::Debug for RwLock<T> {
+    fn fmt(&self, f: &mut std::fmt::Formatter<'_>) -> std::fmt::Result {
+        std::fmt::Debug::fmt(&self.inner, f)
+    }
+}
+
+/// std's `OnceLock` behind a gate: whoever builds the value holds the gate and is preempted
+/// once before building, so other tasks see the cell empty meanwhile (`get`) or wait for it
+/// (`get_or_init`), as real threads do.
+pub struct OnceLock<T> {
+    cell: std::sync::OnceLock<T>,
+    gate: shuttle::sync::Mutex<()>,
+}
+
+impl<T> OnceLock<T> {
+    pub const fn new() -> Self {
+        Self { cell: std::sync::OnceLock::new(), gate: shuttle::sync::Mutex::new(()) }
+    }
+    pub fn get(&self) -> Option<&T> {
+        self.cell.get()
+    }
+    pub fn get_mut(&mut self) -> Option<&mut T> {
+        self.cell.get_mut()
+    }
+    pub fn set(&self, value: T) -> Result<(), T> {
+        let _g = self.gate.lock().unwrap_or_else(|e| e.into_inner());
+        self.cell.set(value)
+    }
+    pub fn get_or_init<F: FnOnce() -> T>(&self, f: F) -> &T {
+        if let Some(v) = self.cell.get() {
+            return v;
+        }
+        let _g = self.gate.lock().unwrap_or_else(|e| e.into_inner());
+        preempt();
+        self.cell.get_or_init(f)
+    }
+    pub fn into_inner(self) -> Option<T> {
+        self.cell.into_inner()
+    }
+    pub fn take(&mut self) -> Option<T> {
+        self.cell.take()
+    }
+}
+
+impl<T> Default for OnceLock<T> {
+    fn default() -> Self {
+        Self::new()
+    }
+}
+impl<T: std::fmt::Debug> std::fmt::Debug for OnceLock<T> {
+    fn fmt(&self, f: &mut std::fmt::Formatter<'_>) -> std::fmt::Result {
+        std::fmt::Debug::fmt(&self.cell, f)
+    }
+}
+impl<T: Clone> Clone for OnceLock<T> {
+    fn clone(&self) -> Self {
+        Self { cell: self.cell.clone(), gate: shuttle::sync::Mutex::new(()) }
+    }
+}
+impl<T> From<T> for OnceLock<T> {
+    fn from(t: T) -> Self {
+        Self { cell: std::sync::OnceLock::from(t), gate: shuttle::sync::Mutex::new(()) }
+    }
+}
+impl<T: PartialEq> PartialEq for OnceLock<T> {
+    fn eq(&self, other: &Self) -> bool {
+        self.cell == other.cell
+    }
+}
+impl<T: Eq> Eq for OnceLock<T> {}
+
+pub struct LazyLock<T, F = fn() -> T> {
+    cell: OnceLock<T>,
+    init: std::sync::Mutex<Option<F>>,
+}
+
+impl<T, F: FnOnce() -> T> LazyLock<T, F> {
+    pub const fn new(f: F) -> Self {
+        Self { cell: OnceLock::new(), init: std::sync::Mutex::new(Some(f)) }
+    }
+    pub fn force(this: &Self) -> &T {
+        this.cell.get_or_init(|| {
+            let f = this.init.lock().unwrap_or_else(|e| e.into_inner()).take();
+            match f {
+                Some(f) => f(),
+                None => panic!("LazyLock instance has previously been poisoned"),
+            }
+        })
+    }
+}
+
+impl<T, F: FnOnce() -> T> std::ops::Deref for LazyLock<T, F> {
+    type Target = T;
+    fn deref(&self) -> &T {
+        Self::force(self)
+    }
+}
+impl<T: Default> Default for LazyLock<T> {
+    fn default() -> Self {
+        Self::new(T::default)
+    }
+}
+impl<T: std::fmt::Debug, F> std::fmt::Debug for LazyLock<T, F> {
+    fn fmt(&self, f: &mut std::fmt::Formatter<'_>) -> std::fmt::Result {
+        std::fmt::Debug::fmt(&self.cell, f)
+    }
 }
 """
 
@@ -241,6 +513,8 @@ def prepare_shadow():
     total = 0
     files = []
     tls = 0
+    lazy_only = []
+    import re as _re
     for root, _dirs, names in os.walk(os.path.join(SHADOW_DIR, "src")):
         for nme in names:
             if not nme.endswith(".rs") or nme == "verif_seam.rs":
@@ -253,6 +527,14 @@ def prepare_shadow():
                 open(fp, "w").write(new)
                 total += k
                 files.append(os.path.relpath(fp, SHADOW_DIR))
+            elif new != txt and _re.search(r"\b(?:OnceLock|LazyLock)\b", new):
+                lazy_only.append((fp, new))
+    # files whose only synchronisation is a lazily built value get the gated OnceLock / LazyLock too -
+    # but only when the shadow build runs at all (some file uses a primitive shuttle models)
+    if total:
+        for fp, new in lazy_only:
+            open(fp, "w").write(new)
+            files.append(os.path.relpath(fp, SHADOW_DIR) + " (lazy values only)")
     open(os.path.join(SHADOW_DIR, "src", "verif_sync.rs"), "w").write(VERIF_SYNC_RS)
     open(os.path.join(SHADOW_DIR, "src", "verif_thread.rs"), "w").write(VERIF_THREAD_RS)
     librs = os.path.join(SHADOW_DIR, "src", "lib.rs")
@@ -314,7 +596,7 @@ class Batch:
         err = open(os.path.join(self.dir, f"{tag}.err"), "w")
         prog = os.path.join(self.dir, f"{tag}.progress")
         extra = ["--progress", prog] if progress else []
-        p = subprocess.Popen([binary or BIN, *args, *extra, "--out", out, "--replay-dir", REPLAYS], env=env or ENV, cwd=cwd, stdout=err, stderr=err)
+        p = subprocess.Popen([binary or BIN, *args, *extra, "--out", out, "--replay-dir", REPLAYS], env=sim_env(env), cwd=cwd, stdout=err, stderr=err)
         self.procs.append(dict(p=p, out=out, tag=tag, args=args, prog=prog if progress else None, last=None, last_t=time.time()))
 
     def wait(self, timeout_s, tolerate_crash=False):
@@ -590,8 +872,8 @@ def write_evidence(prop, tier, seed, level, coverage, assumptions, wall, nviol):
 # --------------------------------------------------------------------------- C18
 
 C18_PLAN = {
-    "quick": dict(runs=16000, scheds=4, cold=128, selftest=192, miri_light=4, miri_full=2, miri_conv=16, shadow=4000, xl_den=4000, budget=900),
-    "thorough": dict(runs=750000, scheds=4, cold=2048, selftest=2048, miri_light=192, miri_full=48, miri_conv=192, miri_fit=32, shadow=300000, xl_den=1500, budget=7200),
+    "quick": dict(runs=16000, depth_chains=256, depth_max=300, scheds=4, cold=128, selftest=192, miri_light=4, miri_full=2, miri_conv=16, shadow=4000, xl_den=4000, budget=900),
+    "thorough": dict(runs=750000, depth_chains=4096, depth_max=1100, scheds=4, cold=2048, selftest=2048, miri_light=192, miri_full=48, miri_conv=192, miri_fit=32, shadow=300000, xl_den=1500, budget=7200),
 }
 
 
@@ -833,14 +1115,15 @@ def check_c18(tier, seed):
         log(f"  worker {tag} hung at run index {idx}; the scenario {what}")
         log(f"VIOLATION property=C18 replay={p}")
     agg = dict(runs=0, executions=0, steps=0, switches=0, ops=0, ref_keys=0, overlap_execs=0, nested=0, fresh_build_runs=0,
-               hash_seeds=0, maps_created=0)
+               hash_seeds=0, maps_created=0, clock_reads=0, clock_sleeps=0)
+    clock_seam_workers = sum(1 for o in outs if o.get("clock_seam"))
     fired, sched_kinds, threads_hist = {}, {}, {}
     seam = [0] * 5
     hash_files = {"nontrivial": [], "schedules": [], "scenarios": []}
     samples = []
     for o in outs:
         for k in agg:
-            agg[k] += o[k]
+            agg[k] += o.get(k, 0)
         merge_counts(fired, o["fired"])
         merge_counts(sched_kinds, o["sched_kinds"])
         merge_counts(threads_hist, o["threads_hist"])
@@ -858,6 +1141,29 @@ def check_c18(tier, seed):
     sim_wall = max([o["wall_s"] for o in outs], default=0.0)
     log(f"[C18] main batch ({time.time() - t0:.0f}s): {agg['runs']} scenarios, {agg['executions']} executions, {agg['steps']} seam points, "
         f"{n_schedules} distinct interleavings, {agg['overlap_execs']} with overlapping operations, faults {fired}")
+    # ---- chains of nested parses: a parse that starts while 1 ... depth_max other parses are in
+    # progress on its thread (each started from the caller's iterator / validator / reference check
+    # of the one before) must return what it returns at top level. The coroutine stacks of the
+    # simulated threads are too small for that, so the chains run on OS threads with large stacks.
+    depth_stats = {"chains": 0, "parses": 0, "deepest": 0, "chains_reaching_their_depth": 0, "by_flavour": {}}
+    if not sim_limited:
+        db = Batch("c18depth")
+        for w in range(W):
+            db.spawn(["depth", "--seed", str(seed * 7 + salt), "--runs", str(plan["depth_chains"]), "--max-depth", str(plan["depth_max"]), "--worker", str(w), "--workers", str(W)], f"w{w}")
+        douts, dhung = db.wait(plan["budget"])
+        for tag, args, idx in dhung:
+            die(f"depth worker {tag} did not finish")
+        for o in douts:
+            for k in ("chains", "parses", "chains_reaching_their_depth"):
+                depth_stats[k] += o[k]
+            depth_stats["deepest"] = max(depth_stats["deepest"], o["deepest"])
+            merge_counts(depth_stats["by_flavour"], o["by_flavour"])
+            raws.extend(o["violations"])
+            if o["samples"] and "sample" not in depth_stats:
+                depth_stats["sample"] = o["samples"][0]
+        db.cleanup()
+        fired["nested_parse_chain"] = depth_stats["chains"]
+        log(f"[C18] nesting depth ({time.time() - t0:.0f}s): {depth_stats['chains']} chains of nested parses, deepest {depth_stats['deepest']}, {depth_stats['parses']} parses")
     # ---- shadow batch: the same simulation against a copy of the library whose std::sync
     # primitives are rewritten to shuttle's, so that every atomic / lock operation inside the
     # library is a scheduling point (races between adjacent atomics, lock-per-step protocols)
@@ -1012,7 +1318,12 @@ def check_c18(tier, seed):
         "faults_fired": fired,
         "scheduler_kinds": sched_kinds,
         "threads_per_scenario": threads_hist,
-        "probes": {"overlap_executions": agg["overlap_execs"], "nested_operations": agg["nested"], "fresh_build_runs": agg["fresh_build_runs"]},
+        "probes": {"overlap_executions": agg["overlap_execs"], "nested_operations": agg["nested"], "fresh_build_runs": agg["fresh_build_runs"],
+                   "library_clock_reads_under_simulated_time": agg["clock_reads"], "library_sleeps_under_simulated_time": agg["clock_sleeps"]},
+        "clock_seam": {"workers_with_the_shim_loaded": clock_seam_workers, "of": len(outs),
+                       "what": "libc clock reads and sleeps of the worker processes are interposed (LD_PRELOAD /verif/simclock); reference, perturbed and post phases run under discrete simulated time "
+                               "(fixed start instant, advance per read), the ambient reference pass and clock_jump faults change date and speed of time; the read counter shows whether the library consulted the clock at all"},
+        "nesting_depth": depth_stats,
         "hash_seeds": agg["hash_seeds"],
         "seamed_maps_created": agg["maps_created"],
         "miri": miri,
@@ -1021,7 +1332,7 @@ def check_c18(tier, seed):
         "simulator_limited_by_blocking_primitive": [f"{t}@{i}" for t, i in sim_limited],
         "runs_per_hour": int(execs / max(sim_wall, 0.001) * 3600),
         "seeds_per_hour": int(agg["runs"] / max(sim_wall, 0.001) * 3600),
-        "simulated_time": "n/a - the library has no clock or timer; scheduling steps are reported instead",
+        "simulated_time": "the library reads no clock (probe library_clock_reads_under_simulated_time counts the reads made under the clock seam); simulated time therefore only advances through injected clock jumps and stalls, and scheduling steps are reported instead",
         "real_vs_stub": REAL_VS_STUB,
         "build_s": round(build_s, 1),
     }
